@@ -169,7 +169,9 @@ func (r *rng) genStr(o genOpts) []byte {
 		return []byte("yz")
 	case 3:
 		// long string (crosses the parsers' 64 byte inline buffers, 1-byte length limits)
-		n := []int{66, 100, 127, 128, 255, 256, 257, 300}[r.n(8)]
+		// ... and lengths whose encoded bytes are structural characters of some format:
+		// '"' '#' '$' ',' ':' 'N' 'Z' '[' '\\' ']' '{' '}' and 0x015D / 0x017D / 0x0123 / 0x01FF
+		n := []int{66, 100, 127, 128, 255, 256, 257, 300, 34, 35, 36, 44, 58, 78, 90, 91, 92, 93, 123, 125, 349, 381, 291, 511}[r.n(24)]
 		b := make([]byte, n)
 		for i := range b {
 			b[i] = byte('a' + i%26)
